@@ -41,6 +41,7 @@ OnVersion ==
 OnFrame ==
   /\ ((Line.size > msize) => Bad("frame longer than the negotiated msize", [msize |-> msize]))
   /\ ((Line.dialect # "") /\ (Line.dialect = "u") # dotu => Bad("reply not in the negotiated dialect", [dotu |-> dotu]))
+  /\ ((Line.dialect = "?") /\ ~dotu => Bad("reply in neither dialect", [dotu |-> dotu]))
   /\ ((Line.count >= 0 /\ Line.data > Line.count) => Bad("more data than the Tread asked for", [count |-> Line.count]))
   /\ UNCHANGED <<case, smsize, sdotu, msize, dotu, alive>>
 
